@@ -52,6 +52,9 @@ FIXED = [
     "( 1 , 2 ) => for-each ( function ( $x ) { $x + 1 } )", "'a' => ( concat ( ? , 'b' , ? ) ) ( 'c' )",
     "if ( a , 2 ) then 1 else 0", "a / node ( ) * 2", "a / text ( ) + 1", ". instance of node ( ) ? and true ( )",
     "( 3 => concat ( ? , 2 ) ) ( 1 )", "( 1 , 2 , 3 ) => remove ( ? ) ",
+    "( ) cast as Q{http://www.w3.org/2001/XMLSchema}integer ?", "( ) instance of Q{http://www.w3.org/2001/XMLSchema}integer *",
+    "( 1 , 2 ) treat as Q{http://www.w3.org/2001/XMLSchema}integer +", "( ) castable as Q{http://www.w3.org/2001/XMLSchema}date ?",
+    "let $ count := 1 return $ count + 1", "for $ string in ( 1 , 2 ) return $ string * 2",
 ]
 
 
